@@ -54,9 +54,18 @@ func (r *Report) Hit(prop, kind string) bool {
 	return r.Counters["viol:"+prop+":"+kind] <= maxViolPerKind
 }
 
+// stopOnViolation (VH_STOP_ON_VIOLATION set) ends the worker with status 7 at
+// the first recorded violation: tools/mutation.py only needs to know whether
+// a mutant is reported, not by how many cases.
+var stopOnViolation = os.Getenv("VH_STOP_ON_VIOLATION") != ""
+
 // Add records a violation counted by Hit.
 func (r *Report) Add(prop, kind, witness, detail string) {
 	r.Violations = append(r.Violations, Violation{prop, kind, witness, detail})
+	if stopOnViolation {
+		fmt.Fprintf(os.Stderr, "first violation: %s %s %.300s | %.300s\n", prop, kind, witness, detail)
+		os.Exit(7)
+	}
 }
 
 // Fail records a violation (at most a few per kind are kept, all are counted).
@@ -67,6 +76,10 @@ func (r *Report) Fail(prop, kind, witness, detail string) {
 		return
 	}
 	r.Violations = append(r.Violations, Violation{prop, kind, witness, detail})
+	if stopOnViolation {
+		fmt.Fprintf(os.Stderr, "first violation: %s %s %.300s | %.300s\n", prop, kind, witness, detail)
+		os.Exit(7)
+	}
 }
 
 func (r *Report) Count(name string) { r.Counters[name]++ }
